@@ -21,7 +21,9 @@ class RemoveOutOfBounds(Contract):
     prop = "C09"
     module = "cryomotl"
     qual = "Motl.remove_out_of_bounds_particles"
-    configs = [{"boundary_type": "center"}, {"boundary_type": "whole"}, {"boundary_type": "whole", "box": "missing"}, {"boundary_type": "other"}]
+    # labels=other: the list carries row labels that differ from the row positions (what remove_feature / adapt_to_trimming leave behind)
+    configs = [{"boundary_type": "center"}, {"boundary_type": "whole"}, {"boundary_type": "whole", "box": "missing"}, {"boundary_type": "other"},
+               {"boundary_type": "center", "labels": "other"}]
     # the pinned test suite asserts the missing lower-bound check (tests/test_cryomotl.py::test_remove_out_of_bounds_particles),
     # so this defect is recorded as a known finding rather than repaired
     findings = {"C09-lower-bound-not-checked": {
@@ -29,11 +31,13 @@ class RemoveOutOfBounds(Contract):
         "witness": lambda o: _lower_violation(o)}}
 
     def cfg_name(self, cfg):
-        return cfg["boundary_type"] + ("-nobox" if cfg.get("box") else "")
+        return cfg["boundary_type"] + ("-nobox" if cfg.get("box") else "") + (",labels-differ-from-positions" if cfg.get("labels") else "")
 
     def bind(self, cx, cfg):
         it = _interp()
         df = common.fresh_motl_frame()
+        if cfg.get("labels"):
+            df.space.label_id = -1 - df.space.pos_id
         me = common.motl_obj(it, df)
         dims = frames.KeyedTable("dims", "tomo_id", ["x", "y", "z"])
         cx.assume(dims.has(z3.Real("tomo_id")))  # requires: the particle's own tomogram is listed
@@ -77,7 +81,7 @@ def _lower_violation(o):
     """witness class of the known finding: the box (or centre) leaves the volume through a lower face"""
     old = common.old_row()
     box = z3.Int("box")
-    b = z3.RealVal(0) if "[center]" in o.name else z3.ToReal(-z3.ToInt(-(z3.ToReal(box) / 2)))
+    b = z3.RealVal(0) if "[center" in o.name else z3.ToReal(-z3.ToInt(-(z3.ToReal(box) / 2)))
     return z3.Or(*[old[a] + old["shift_" + a] - b < 0 for a in XYZ])
 
 
